@@ -164,6 +164,9 @@ class VirtualFile(io.RawIOBase):
 
     def materialise(self, path):
         """Write as a sparse real file."""
+        total = sum(e[1] for e in self._ext)
+        if total > (8 << 30):
+            raise ValueError(f"refusing to materialise {total} bytes of extents into {path}")
         with open(path, "wb") as f:
             f.truncate(self._size)
             for eo, el, kind, arg in self._ext:
